@@ -6,6 +6,7 @@ import (
 
 	"github.com/IrineSistiana/mosproxy/internal/pool"
 	"github.com/IrineSistiana/mosproxy/internal/utils"
+	"github.com/IrineSistiana/mosproxy/internal/verifhook"
 	"github.com/maypok86/otter"
 	"github.com/prometheus/client_golang/prometheus"
 )
@@ -76,6 +77,7 @@ func (c *MemoryCache) Get(k []byte) (v pool.Buffer, storedTime, expireTime time.
 	c.getTotal.Inc()
 	e, ok := c.backend.Get(utils.Bytes2StrUnsafe(k))
 	if ok { // key hit
+		verifhook.Point("memcache.get")
 		if e.l.TryRLock() {
 			if e.v == nil || e.k != string(k) { // entry has been released or reused
 				e.l.RUnlock()
@@ -102,6 +104,7 @@ func (c *MemoryCache) Close() error {
 
 type cacheEntry struct {
 	l          sync.RWMutex
+	verifState verifEntryState
 	storedTime time.Time
 	expireTime time.Time
 	k          string
@@ -113,10 +116,16 @@ var cacheEntryPool = sync.Pool{
 }
 
 func newCacheEntry() *cacheEntry {
+	if verifOn {
+		return verifNewEntry()
+	}
 	return cacheEntryPool.Get().(*cacheEntry)
 }
 
 func releaseEntry(e *cacheEntry) {
+	if verifOn {
+		verifReleaseEntry(e)
+	}
 	e.l.Lock()
 	e.storedTime = time.Time{}
 	e.expireTime = time.Time{}
